@@ -366,7 +366,7 @@ fn more_family<
         if mode == Fresh {
             let mut x = inst(
                 format!("churn_help:{}", path),
-                &["C11"],
+                &["C11", "C03"],
                 mode,
                 4,
                 "T{load, exit} || W{store} || S{first use of the crate inside the race: store, load, load}, 3 preemptions",
@@ -374,7 +374,9 @@ fn more_family<
             );
             x.k = 0;
             x.p_with_k = Some(3);
-            x.thorough_only = true;
+            // quick tier: only on the fallback-only path (the cheapest of the three, and the one
+            // in which every load is a helping transaction)
+            x.thorough_only = path != "nofast";
             out.push(x);
         }
         if mode == Fresh {
